@@ -145,7 +145,19 @@ def run_shard(desc):
             items.append((text, t))
     elif kind == "long":
         for _ in range(hi - lo):
-            if rnd.random() < 0.6:
+            x = rnd.random()
+            if x < 0.15:
+                n = rnd.choice([64, 127, 128, 129, 130, 200, 300])
+                op = rnd.choice(gen.SETTER_OPS)
+                items.append((" ".join("v%d %s" % (i, op if rnd.random() < 0.8 else rnd.choice(gen.SETTER_OPS)) for i in range(n)) + " a + b * c", None))
+            elif x < 0.25:
+                n = rnd.choice([64, 128, 129, 200])
+                items.append(("c ? 1 : " * n + "a + b * c ? x : y", None) if rnd.random() < 0.5 else ("c ? " * n + "a + b * c" + " : z" * n, None))
+            elif x < 0.35:
+                n = rnd.choice([128, 129, 200, 300])
+                op = rnd.choice(gen.CALC_OPS)
+                items.append((" ".join("v%d %s" % (i, op) for i in range(n)) + " a = b", None) if False else (" ".join(["v"] + [op + " w%d" % i for i in range(n)]) + " * c + d", None))
+            elif rnd.random() < 0.6:
                 n = rnd.choice([40, 64, 65, 100, 128, 129, 130, 200, 257, 300])
                 items.append((" ".join(gen.long_chain_tokens(rnd, n)), None))
             else:
